@@ -32,7 +32,9 @@ CONSTANTS
   SyncAfterMeta,        \* TRUE (code since the F1 repair)
   RegisterFirst,        \* TRUE (code) | FALSE (seeded C10-s8: create, then register)
   OldDelDeletedEarly,   \* FALSE (code) | TRUE (seeded C01-s9: old .del unlinked before meta.json is replaced)
-  GcProtectsBuilding    \* TRUE (code: the SegmentMeta inventory) | FALSE (living files = registers only)
+  GcProtectsBuilding,   \* TRUE (code: the SegmentMeta inventory) | FALSE (living files = registers only)
+  MaxFaults,            \* I/O errors injected into the meta.json replacement (0: none)
+  StoreMetaFirst        \* FALSE (code: the active metas are replaced AFTER the durable write) | TRUE (seeded C11-s9)
 
 VARIABLES
   regs,        \* the segment registers: set of [s, del, st]; del = 0: no delete file; st \in {"c","u"}
@@ -42,9 +44,12 @@ VARIABLES
   ujob,        \* [kind, newregs, op, publish]
   gc,          \* [todo, done]: files the running GC still has to delete / has deleted
   ncommit,
+  active,      \* the updater's in-memory copy of the metas (active_index_meta): its SegmentMetas protect their files
+  ondisk,      \* ghost: the registers as the newest meta.json describes them (what a re-opened writer loads)
+  faults,
   ackedIdx     \* index in metaV of the last commit whose call has returned (1 = the initial meta.json)
 
-vars == <<svars, regs, building, nextS, upc, ujob, gc, ncommit, ackedIdx>>
+vars == <<svars, regs, building, nextS, upc, ujob, gc, ncommit, active, ondisk, faults, ackedIdx>>
 
 Seg(s) == "s" \o ToString(s)
 Del(s, n) == "d" \o ToString(s) \o "." \o ToString(n)
@@ -57,14 +62,14 @@ LastMan == manV[Len(manV)]
 
 Init ==
   /\ SInit /\ regs = {} /\ building = NoB /\ nextS = 1 /\ upc = "idle" /\ ujob = NoJob /\ gc = NoGc
-  /\ ncommit = 0 /\ ackedIdx = 1
+  /\ ncommit = 0 /\ ackedIdx = 1 /\ active = {} /\ ondisk = {} /\ faults = 0
 
 (* ------------------------------ builder: worker or merge thread ------------------------------ *)
 StartWorker ==
   /\ building = NoB /\ nextS <= NSeg
   /\ building' = [s |-> nextS, by |-> "worker", pc |-> IF RegisterFirst THEN "register" ELSE "create", src |-> {}]
   /\ nextS' = nextS + 1
-  /\ UNCHANGED <<svars, regs, upc, ujob, gc, ncommit, ackedIdx>>
+  /\ UNCHANGED <<svars, regs, upc, ujob, gc, ncommit, active, ondisk, faults, ackedIdx>>
 \* start_merge runs on the updater: two segments of the same status
 StartMerge ==
   /\ building = NoB /\ nextS <= NSeg /\ upc = "idle"
@@ -72,22 +77,22 @@ StartMerge ==
        /\ a.s < b.s /\ a.st = b.st
        /\ building' = [s |-> nextS, by |-> "merge", pc |-> IF RegisterFirst THEN "register" ELSE "create", src |-> {a.s, b.s}]
   /\ nextS' = nextS + 1
-  /\ UNCHANGED <<svars, regs, upc, ujob, gc, ncommit, ackedIdx>>
+  /\ UNCHANGED <<svars, regs, upc, ujob, gc, ncommit, active, ondisk, faults, ackedIdx>>
 BuildRegister ==
   /\ building.pc = "register"
   /\ AWriteMan(LastMan \cup {Seg(building.s)})
   /\ building' = [building EXCEPT !.pc = IF RegisterFirst THEN "create" ELSE "term"]
-  /\ UNCHANGED <<regs, nextS, upc, ujob, gc, ncommit, ackedIdx>>
+  /\ UNCHANGED <<regs, nextS, upc, ujob, gc, ncommit, active, ondisk, faults, ackedIdx>>
 BuildCreate ==
   /\ building.pc = "create"
   /\ Create(Seg(building.s))
   /\ building' = [building EXCEPT !.pc = IF RegisterFirst THEN "term" ELSE "register"]
-  /\ UNCHANGED <<regs, nextS, upc, ujob, gc, ncommit, ackedIdx>>
+  /\ UNCHANGED <<regs, nextS, upc, ujob, gc, ncommit, active, ondisk, faults, ackedIdx>>
 BuildTerm ==
   /\ building.pc = "term"
   /\ Terminate(Seg(building.s))
   /\ building' = [building EXCEPT !.pc = "done"]
-  /\ UNCHANGED <<regs, nextS, upc, ujob, gc, ncommit, ackedIdx>>
+  /\ UNCHANGED <<regs, nextS, upc, ujob, gc, ncommit, active, ondisk, faults, ackedIdx>>
 
 (* ---------------------------------- updater tasks ---------------------------------- *)
 AddSegment ==
@@ -95,7 +100,7 @@ AddSegment ==
   /\ DropWriter(Seg(building.s))
   /\ regs' = regs \cup {[s |-> building.s, del |-> 0, st |-> "u"]}
   /\ building' = NoB
-  /\ UNCHANGED <<nextS, upc, ujob, gc, ncommit, ackedIdx>>
+  /\ UNCHANGED <<nextS, upc, ujob, gc, ncommit, active, ondisk, faults, ackedIdx>>
 
 Committed(R) == {[s |-> r.s, del |-> r.del, st |-> "c"] : r \in R}
 \* the commit may first write a new delete file for one segment (advance_deletes / purge_deletes)
@@ -108,7 +113,7 @@ StartCommit ==
           /\ ujob' = [kind |-> "commit", op |-> ncommit + 1, publish |-> TRUE,
                       newregs |-> Committed((regs \ {r}) \cup {[s |-> r.s, del |-> ncommit + 1, st |-> "c"]})]
           /\ upc' = "del"
-  /\ UNCHANGED <<svars, regs, building, nextS, gc, ackedIdx>>
+  /\ UNCHANGED <<svars, regs, building, nextS, gc, active, ondisk, faults, ackedIdx>>
 \* the new delete file: registered, created, terminated (three Directory operations, no step of
 \* another process between them matters for the invariants, so they are one step here)
 CommitDelFile ==
@@ -122,7 +127,7 @@ CommitDelFile ==
         /\ termd' = termd \cup {f}
         /\ ghosts' = ghosts \cup (old \cap entDur)
   /\ upc' = "sync1"
-  /\ UNCHANGED <<entDur, live, metaV, metaDur, manDur, regs, building, nextS, ujob, gc, ncommit, ackedIdx>>
+  /\ UNCHANGED <<entDur, live, metaV, metaDur, manDur, regs, building, nextS, ujob, gc, ncommit, active, ondisk, faults, ackedIdx>>
 SegIds(R) == {r.s : r \in R}
 AddsSegment == \E r \in ujob.newregs : Seg(r.s) \notin LastMeta.files
 UpdSync1 ==
@@ -131,20 +136,41 @@ UpdSync1 ==
      ELSE IF SyncBeforeMeta = "always" \/ (SyncBeforeMeta = "ifnewseg" /\ AddsSegment)
      THEN SyncDir ELSE UNCHANGED svars
   /\ upc' = "meta"
-  /\ UNCHANGED <<regs, building, nextS, ujob, gc, ncommit, ackedIdx>>
+  /\ UNCHANGED <<regs, building, nextS, ujob, gc, ncommit, active, ondisk, faults, ackedIdx>>
+Published == {r \in ujob.newregs : r.st = "c"}
 UpdMeta ==
   /\ upc = "meta"
   /\ IF ujob.publish
-     THEN AWriteMeta(FilesOf({r \in ujob.newregs : r.st = "c"}), ujob.op)
-     ELSE UNCHANGED svars
+     THEN AWriteMeta(FilesOf(Published), ujob.op) /\ active' = FilesOf(Published) /\ ondisk' = Published
+     ELSE UNCHANGED <<svars, active, ondisk>>
   /\ regs' = ujob.newregs
   /\ upc' = "sync2"
-  /\ UNCHANGED <<building, nextS, ujob, gc, ncommit, ackedIdx>>
+  /\ UNCHANGED <<building, nextS, ujob, gc, ncommit, faults, ackedIdx>>
+\* the replacement of meta.json fails (I/O error): the registers are already swapped; the commit reports
+\* the error and the updater is dead (F40 repair); an end_merge just reports it (no GC in that task)
+UpdMetaFail ==
+  /\ upc = "meta" /\ ujob.publish /\ faults < MaxFaults
+  /\ faults' = faults + 1
+  /\ regs' = ujob.newregs
+  /\ active' = IF StoreMetaFirst THEN FilesOf(Published) ELSE active
+  /\ upc' = IF ujob.kind = "commit" THEN "dead" ELSE "idle"
+  /\ ujob' = NoJob
+  /\ UNCHANGED <<svars, building, nextS, gc, ncommit, ondisk, ackedIdx>>
+\* the caller drops / rolls back the writer and opens a new one: registers and active metas from meta.json
+Reopen ==
+  /\ upc = "dead" /\ building = NoB
+  /\ regs' = ondisk /\ active' = FilesOf(ondisk) /\ upc' = "idle"
+  /\ UNCHANGED <<svars, building, nextS, ujob, gc, ncommit, ondisk, faults, ackedIdx>>
+\* IndexWriter::garbage_collect_files, any time the updater is idle
+ExplicitGc ==
+  /\ upc = "idle" /\ ujob = NoJob /\ faults > 0
+  /\ upc' = "gc" /\ ujob' = [NoJob EXCEPT !.kind = "gc"]
+  /\ UNCHANGED <<svars, regs, building, nextS, gc, ncommit, active, ondisk, faults, ackedIdx>>
 UpdSync2 ==
   /\ upc = "sync2"
   /\ IF ujob.publish /\ SyncAfterMeta THEN SyncDir ELSE UNCHANGED svars
   /\ upc' = "gc"
-  /\ UNCHANGED <<regs, building, nextS, ujob, gc, ncommit, ackedIdx>>
+  /\ UNCHANGED <<regs, building, nextS, ujob, gc, ncommit, active, ondisk, faults, ackedIdx>>
 
 \* end_merge: the merged segment replaces its sources; meta.json is rewritten only when they were committed
 EndMerge ==
@@ -158,27 +184,27 @@ EndMerge ==
      ELSE \* a source is gone: the merge is abandoned, its files are garbage
           ujob' = [kind |-> "merge", op |-> LastMeta.op, publish |-> FALSE, newregs |-> regs]
   /\ building' = NoB /\ upc' = "sync1"
-  /\ UNCHANGED <<regs, nextS, gc, ncommit, ackedIdx>>
+  /\ UNCHANGED <<regs, nextS, gc, ncommit, active, ondisk, faults, ackedIdx>>
 
 (* ------------------------------ garbage collection ------------------------------ *)
 \* list_files(): every live SegmentMeta (registers AND the segment a merge thread is building)
-Living == FilesOf(regs) \cup (IF GcProtectsBuilding /\ building # NoB THEN {Seg(building.s)} ELSE {})
+Living == FilesOf(regs) \cup active \cup (IF GcProtectsBuilding /\ building # NoB THEN {Seg(building.s)} ELSE {})
 GcList ==
   /\ upc = "gc"
   /\ gc' = [todo |-> LastMan \ Living, done |-> {}]
   /\ upc' = "gcdel"
-  /\ UNCHANGED <<svars, regs, building, nextS, ujob, ncommit, ackedIdx>>
+  /\ UNCHANGED <<svars, regs, building, nextS, ujob, ncommit, active, ondisk, faults, ackedIdx>>
 GcDel ==
   /\ upc = "gcdel" /\ gc.todo # {}
   /\ \E f \in gc.todo :
        /\ IF f \in exists THEN Delete(f) ELSE UNCHANGED svars     \* FileDoesNotExist counts as deleted
        /\ gc' = [todo |-> gc.todo \ {f}, done |-> gc.done \cup {f}]
-  /\ UNCHANGED <<regs, building, nextS, upc, ujob, ncommit, ackedIdx>>
+  /\ UNCHANGED <<regs, building, nextS, upc, ujob, ncommit, active, ondisk, faults, ackedIdx>>
 GcSync ==
   /\ upc = "gcdel" /\ gc.todo = {}
   /\ IF gc.done # {} THEN SyncDir ELSE UNCHANGED svars
   /\ upc' = "gcman"
-  /\ UNCHANGED <<regs, building, nextS, ujob, gc, ncommit, ackedIdx>>
+  /\ UNCHANGED <<regs, building, nextS, ujob, gc, ncommit, active, ondisk, faults, ackedIdx>>
 GcDone ==
   /\ upc = "gcman"
   /\ IF gc.done # {} THEN AWriteMan(LastMan \ gc.done) ELSE UNCHANGED svars
@@ -186,11 +212,11 @@ GcDone ==
   /\ ackedIdx' = IF ujob.kind = "commit"
                  THEN CHOOSE i \in 1..Len(metaV) : metaV[i].op = ujob.op /\ \A j \in 1..(i-1) : metaV[j].op # ujob.op
                  ELSE ackedIdx
-  /\ UNCHANGED <<regs, building, nextS, ncommit>>
+  /\ UNCHANGED <<regs, building, nextS, ncommit, active, ondisk, faults>>
 
 Next ==
   \/ StartWorker \/ StartMerge \/ BuildRegister \/ BuildCreate \/ BuildTerm \/ AddSegment
-  \/ StartCommit \/ CommitDelFile \/ UpdSync1 \/ UpdMeta \/ UpdSync2 \/ EndMerge
+  \/ StartCommit \/ CommitDelFile \/ UpdSync1 \/ UpdMeta \/ UpdMetaFail \/ Reopen \/ ExplicitGc \/ UpdSync2 \/ EndMerge
   \/ GcList \/ GcDel \/ GcSync \/ GcDone
 Spec == Init /\ [][Next]_vars
 
@@ -201,7 +227,8 @@ CrashDurable == Lo(metaDur) >= ackedIdx
 \* C10: a file no live SegmentMeta needs is gone once the GC has run to completion
 GcComplete == (upc = "idle" /\ building = NoB /\ ujob = NoJob) =>
                  \A f \in exists : f \in FilesOf(regs) \/ f \in LastMan
-GcTight == (upc = "idle" /\ building = NoB) => exists \subseteq FilesOf(regs)
+\* (after an I/O error the files of the failed publication wait for the next collection: GcComplete covers them)
+GcTight == (upc = "idle" /\ building = NoB /\ faults = 0) => exists \subseteq FilesOf(regs)
 \* C10 (never delete what is needed): a visible meta.json never loses a file
 NeverDeletesNeeded == \A f \in LastMeta.files : f \in exists
 \* a file under construction is never deleted under its writer
